@@ -3,7 +3,7 @@ import os
 import vlib, e2e
 from vlib import hx, unhx, case_line, show
 
-THEOREMS = ["C15_list", "C15_effective_is_suffix", "C15_last", "C15_kv", "C15_dropins", "C15_pinned_refuted", "C15_merged_history"]
+THEOREMS = ["C15_list", "C15_effective_is_suffix", "C15_last", "C15_kv", "C15_dropins", "C15_pinned_refuted", "C15_merged_history", "C15_rules_with_dropins"]
 
 # key -> (kind, candidate values)
 KEYS = {
